@@ -31,8 +31,9 @@ LEVEL_TEXT = ("Machine-checked Coq theorems over an executable two-layer model: 
 LEVEL_NOTE = ("Trusted: Coq kernel + vm_compute; the hand-written code model (validated, not verified, against CPython generator / list() / slice "
               "semantics and the shipped compiled collector by the correspondence run); a derived lazy frame is modelled only up to the moment "
               "it is first listed, with nothing touching its source in between (select reads self._rows when its generator starts, filter/take "
-              "bind it at creation: indistinguishable in that protocol). Window and limit sizes < 0, batch sizes < 1 and collect columns that "
-              "do not exist are outside the theorems (hypothesis prog_ok) but inside the correspondence. No axioms (Print Assumptions: closed).")
+              "bind it at creation: indistinguishable in that protocol). Window sizes < 0, batch sizes < 1 and collect columns that do not exist "
+              "are outside the program theorem (hypothesis prog_ok; the source-unchanged theorem has no such hypothesis) but inside the "
+              "correspondence. collect() with a set or bool column argument, predicates/masks that raise, and ragged rows are not exercised. No axioms (Print Assumptions: closed).")
 DESIGN_REF = "DESIGN.md section 8, C03"
 COQ_IMPORTS = "From Orso Require Import Model.C03."
 COQ_CHECKS = {"prog": "c03_check_both"}
